@@ -478,9 +478,7 @@ func (p *Process) onProcessEnd(state string) {
 	}
 	p.mtxStopFn.Unlock()
 	p.stopProbes()
-	if p.readyProber != nil {
-		p.readyCancelFn()
-	}
+	p.readyCancelFn()
 	p.setState(state)
 	p.updateProcState()
 
